@@ -121,6 +121,9 @@ func runC10(c *Ctx) {
 		{a1, hn("B"), hn("A"), a1},
 		{system.Integer(1), system.String("1"), system.Boolean(true), hn("A"), system.Integer(1)},
 		{system.Boolean(true), system.Boolean(false), system.Boolean(true)},
+		{system.Integer(1), system.Decimal(mustDec("1.0")), system.Integer(2), system.Decimal(mustDec("2")), fhir.Integer(1), fhir.Decimal(1)},
+		{system.Decimal(mustDec("1.5")), system.Integer(2), system.Decimal(mustDec("1.50")), mustElementDecimal("1.5"), mustElementDecimal("1.50")},
+		{hn("A"), hn("A"), hn("B"), hn("A")},
 		{},
 		{system.Integer(7)},
 	}
@@ -246,12 +249,13 @@ func runC10(c *Ctx) {
 		}
 		c.Emit(fmt.Sprintf("count %d", n), outTokens(evalOn("count()", cl)), n > 0)
 		c.Emit(fmt.Sprintf("empty %d", n), boolOutE(evalOn("empty()", cl)), n > 0)
-		// --- set functions: eq matrix from the implementation's own membership test
+		// --- set functions: eq matrix from the `=` operator evaluated through the public API (not from
+		// Collection.Contains, which the set functions themselves use)
 		mk := func(all system.Collection) string {
 			var b strings.Builder
 			for i := range all {
 				for j := range all {
-					if (system.Collection{all[i]}).Contains(all[j]) {
+					if eqByOperator(all[i], all[j]) {
 						b.WriteByte('1')
 					} else {
 						b.WriteByte('0')
@@ -265,6 +269,30 @@ func runC10(c *Ctx) {
 		}
 		c.Emit(fmt.Sprintf("distinct %d %s %s", n, mk(cl.items), repToken(cl.items)), idxOut(evalOn("distinct()", cl), cl.items), n > 0)
 		c.Emit(fmt.Sprintf("isdistinct %d %s", n, mk(cl.items)), boolOutE(evalOn("isDistinct()", cl)), n > 0)
+		if do := evalOn("distinct()", cl); do.Err == nil && !do.Panicked && n <= 14 {
+			dupFree := true
+			for i := range do.Coll {
+				for j := i + 1; j < len(do.Coll); j++ {
+					if eqByOperator(do.Coll[i], do.Coll[j]) {
+						dupFree = false
+					}
+				}
+			}
+			covers := true
+			for _, it := range cl.items {
+				found := false
+				for _, r := range do.Coll {
+					if sameItem(it, r) || eqByOperator(it, r) {
+						found = true
+					}
+				}
+				covers = covers && found
+			}
+			c.Law(dupFree && covers, "C10/distinct-spec", "distinct() keeps one representative of each class of equal items", fmt.Sprintf("%s = %v .distinct()", cl.desc, cl.items), fmt.Sprintf("%d of %d items kept; duplicate-free=%v, every item represented=%v", len(do.Coll), n, dupFree, covers))
+			if io := evalOn("isDistinct()", cl); io.Err == nil && len(io.Coll) == 1 {
+				c.Law((io.Coll[0] == system.Boolean(true)) == (len(do.Coll) == n), "C10/isdistinct-spec", "isDistinct() iff count() = distinct().count()", cl.desc, fmt.Sprintf("isDistinct=%v, distinct keeps %d of %d", io.Coll[0], len(do.Coll), n))
+			}
+		}
 		// second collection with controlled overlap
 		for t := 0; t < 3; t++ {
 			var d system.Collection
@@ -327,6 +355,35 @@ func runC10(c *Ctx) {
 				if o.Err == nil && !o.Panicked {
 					for _, it := range o.Coll {
 						c.Law(it != nil, "C10/null-item", "no null items", cl.desc+"."+op, "nil item")
+					}
+					if op == "intersect" {
+						dupFree := true
+						for i := range o.Coll {
+							for j := i + 1; j < len(o.Coll); j++ {
+								if eqByOperator(o.Coll[i], o.Coll[j]) {
+									dupFree = false
+								}
+							}
+						}
+						member := func(x any, coll system.Collection) bool {
+							for _, y := range coll {
+								if sameItem(x, y) || eqByOperator(x, y) {
+									return true
+								}
+							}
+							return false
+						}
+						sound, complete := true, true
+						for _, r := range o.Coll {
+							sound = sound && member(r, cl.items) && member(r, d)
+						}
+						for _, it := range cl.items {
+							if member(it, d) {
+								complete = complete && member(it, o.Coll)
+							}
+						}
+						c.Law(dupFree && sound && complete, "C10/intersect-spec", "intersect(d) is the duplicate-free set of items of c equal to some item of d", fmt.Sprintf("%s = %v intersect %v", cl.desc, cl.items, d),
+							fmt.Sprintf("%d items; duplicate-free=%v, all in both=%v, nothing missing=%v", len(o.Coll), dupFree, sound, complete))
 					}
 					if op == "exclude" {
 						// property: exactly the items of c equal to no item of d, order and duplicates preserved
@@ -408,6 +465,16 @@ func boolOutE(o Outcome) string {
 		return "err"
 	}
 	return boolOut(o)
+}
+
+var eqExpr = fhirpath.MustCompile("%a = %b")
+
+// eqByOperator: `a = b` is true (empty and false both count as "not equal")
+func eqByOperator(a, b any) bool {
+	o := safeEval(func() (system.Collection, error) {
+		return eqExpr.Evaluate([]fhir.Resource{}, evalopts.EnvVariable("a", a), evalopts.EnvVariable("b", b))
+	})
+	return o.Err == nil && !o.Panicked && len(o.Coll) == 1 && o.Coll[0] == system.Boolean(true)
 }
 
 func sameSystem(a, b any) bool {
